@@ -28,6 +28,9 @@ func decodeCaseMode(k lib.Kind, s string, mode int) Case {
 	if mode == lib.RecvQueried {
 		c.Args = map[string]string{"receiver": "constructor result queried before Decode"}
 	}
+	if mode == lib.RecvCopy {
+		c.Args = map[string]string{"receiver": "by-value copy of a constructor result"}
+	}
 	return c
 }
 
@@ -35,6 +38,9 @@ func decodeCaseMode(k lib.Kind, s string, mode int) Case {
 func caseMode(c Case) int {
 	if c.NilRcv {
 		return lib.RecvNil
+	}
+	if strings.HasPrefix(c.Args["receiver"], "by-value") {
+		return lib.RecvCopy
 	}
 	if c.Args["receiver"] != "" {
 		return lib.RecvQueried
@@ -339,6 +345,7 @@ func runC02(r *Run) int {
 			w.Sample(map[string]interface{}{"vector": s, "expected_temporal": float64(sc.Temp) / 10, "expected_base": float64(sc.Base) / 10})
 		}
 	})
+	assembled3(r, "C02", 1)
 	ws := map[string]map[string]int64{}
 	for g, m := range []int{spec.E, spec.RL, spec.RC} {
 		mm := map[string]int64{}
@@ -650,6 +657,7 @@ func runC03(r *Run) int {
 			w.CountN("full_product_cases", suffix)
 		})
 	}
+	assembled3(r, "C03", r.Pick(8, 1))
 	r.Extra("corner_coverage_in_effective_product", map[string]int64{
 		"cap_0.915_binding":                       st.capBound.Load(),
 		"modified_scope_overrides_base_scope":     st.msOverride.Load(),
@@ -751,3 +759,46 @@ func replayScore3(r *Run, c Case) {
 }
 
 var _ = sort.Ints
+
+// assembled3 checks v3 objects put together from separately decoded parts against the exact model.
+func assembled3(r *Run, prop string, stride int) {
+	hows := []string{"constructor result whose embedded decoder decoded the vector", "constructor result with its embedded pointer replaced by a decoded object", "struct literal around a decoded object"}
+	n := 2 * nBase3 * 100
+	if prop == "C02" {
+		n = 2 * nBase3
+	}
+	r.Parallel(n/stride, 32, func(w *W, j int) {
+		idx := j * stride
+		var v spec.V3
+		k := lib.K3E
+		level := spec.LTemp
+		if prop == "C02" {
+			v = newV3(idx/nBase3, idx%nBase3)
+			k, level = lib.K3T, spec.LBase
+		} else {
+			v = newV3(idx/100/nBase3, idx/100%nBase3)
+			temporal3(&v, idx%100)
+		}
+		s := render3(&v, level, nil)
+		exp := spec.Score3(&v)
+		want := exp.Env
+		if prop == "C02" {
+			want = exp.Temp
+		}
+		for how := 0; how < 3; how++ {
+			o, ok, pan := lib.Assemble(k, s, how)
+			w.Eval(1)
+			w.Count("assembled_objects")
+			if pan != nil || !ok {
+				w.Count("assembled_object_unavailable")
+				continue
+			}
+			got, _ := o.Score()
+			if !tenthEq(got, want) {
+				c := decodeCase(k, s, false)
+				c.Args = map[string]string{"assembled": hows[how]}
+				w.Violate(Violation{Monitor: prop, Check: "the score of an object assembled from a separately decoded lower-level part equals the exact FIRST value of its metrics", Case: c, Observed: got, Expected: float64(want) / 10})
+			}
+		}
+	})
+}
